@@ -16,7 +16,8 @@ ANCHORS = ['bip32:PubKeyNode._parse', 'bip32:PubKeyNode._serialize', 'wallet_uti
 RULE = ("BIP32-valid 78-byte payloads (depth 0 => fp=index=0; depth 1..255 => any fp/index/chain; scalar classes incl. "
         "leading zeros; points of both parities incl. x with leading zero bytes) x ALL 12 version constants (exhaustive) x 3 "
         "input forms x {Pub,Prv} node class; version table checked exhaustively in both directions; unknown versions = every "
-        "constant +-1, single bit flips of every constant, random 32-bit values; distinct = distinct (monitor, case) digests")
+        "constant +-1, single bit flips of every constant, random 32-bit values; distinct = distinct (monitor, case) digests"
+        " EXTENSIONS: + streams at an offset / holding several records, constructor-built public nodes from uncompressed / hybrid / raw keys, attribute edits on returned Version objects, list edits on returned version lists, version neighbours")
 LEVEL_TEXT = ("Every extended-key string emitted by the real serialisers is decoded by an independent Base58Check decoder "
               "and compared byte-for-byte with the BIP32 layout of the node's fields; every parse (str/bytes/stream) is "
               "compared with the reference fields, parsed_version, equality and identical 111-char re-serialisation; public "
@@ -236,6 +237,36 @@ def judge_version_table(ctx):
         ctx.judge("version_table", not bad, {"version": ver, "triple": [typ, net, purpose]}, ver, bad,
                   cls="%s%s%d" % (typ, net, purpose), mech="C07.version_table." + (bad[0][0] if bad else ""))
         ctx.judge("version_table", True, {"dir": "inverse", "version": ver}, cls="inv")
+    # The value object that parse() returns belongs to the caller, who may turn it into the COUNTERPART prefix by assigning its
+    # attributes (zprv -> zpub: v.key_type = PUB; xprv -> tprv: v.testnet = True ...).  Afterwards every prefix still means
+    # what it meant, for parse() and for a wallet import.
+    from btc_hd_wallet.base_wallet import BaseWallet
+    for (typ, net, purpose), ver in sorted(rb32.SLIP132.items()):
+        try:
+            v = Version.parse(version_int=ver)
+            for attr, val in (("key_type", Key.PUB if v.key_type == Key.PRV else Key.PRV), ("testnet", not v.testnet),
+                              ("bip_type", Bip.BIP49 if v.bip_type != Bip.BIP49 else Bip.BIP84)):
+                try:
+                    setattr(v, attr, val)
+                except Exception:  # noqa  (an immutable value object is fine)
+                    pass
+        except Exception:  # noqa
+            pass
+    for (typ, net, purpose), ver in sorted(rb32.SLIP132.items()):
+        bad = []
+        try:
+            v = Version.parse(version_int=ver)
+            got = ("prv" if v.key_type == Key.PRV else "pub", "test" if v.testnet else "main", v.bip_type)
+            if got != (typ, net, bipnum[purpose]) or int(v) != ver:
+                bad.append(("parse_after_caller_edited_returned_objects", (typ, net, purpose), (got[0], got[1], str(got[2]), int(v))))
+            xk = rb32.XKey(12345, None, b"\x07" * 32)
+            w = BaseWallet.from_extended_key(xk.xprv(ver) if typ == "prv" else xk.xpub(ver))
+            if bool(w.testnet) != (net == "test") or bool(w.watch_only) != (typ == "pub"):
+                bad.append(("wallet_after_caller_edited_returned_objects", (typ, net), (w.watch_only, w.testnet)))
+        except Exception as e:  # noqa
+            bad.append(("after_edit.raised", None, e))
+        ctx.judge("version_table", not bad, {"version": ver, "triple": [typ, net, purpose], "step": "after attribute edits"}, ver, bad,
+                  cls="%s%s%d|after-edit" % (typ, net, purpose), mech="C07.version_table." + (bad[0][0] if bad else ""))
 
 
 def judge_unknown_version(ctx, case):
